@@ -117,4 +117,3 @@ func vgcAllFragments(h *Holder) []*fragment {
 	}
 	return out
 }
-
